@@ -16,7 +16,7 @@ Clause(r) ==
     IF e.u THEN "ok"                                   \* the statement gives this text no value
     ELSE CASE r.ctx = "eval" ->
                  IF r.obs.ok /\ r.obs.val = e.v THEN "ok" ELSE "eval_expression_str value"
-           [] r.ctx \in {"imm16", "dl", "dw", "db", "sym", "assign", "macro", "macro2", "pointer"} ->
+           [] r.ctx \in {"imm16", "dl", "dw", "db", "sym", "assign", "macro", "macro2", "deep", "pointer"} ->
                  IF r.obs.ok /\ r.obs.bytes = LowBytes(e.v, Width(r.ctx)) THEN "ok" ELSE "bytes in context " \o r.ctx
            [] r.ctx = "long24" ->
                  \* `lda.l e`: a value that does not fit 24 bits may be refused instead of truncated (C01)
